@@ -313,6 +313,9 @@ func (app *App) optimizeReplicaWithSmallestLag(
 		return err
 	}
 	replicaToOptimize := app.cluster.Get(hostnameToOptimize)
+	if replicaToOptimize == nil {
+		return fmt.Errorf("replica %s is not a registered cluster host", hostnameToOptimize)
+	}
 
 	err = app.optController.Enable(replicaToOptimize)
 	if err != nil {
